@@ -91,6 +91,14 @@ def directed() -> list[dict[str, Any]]:
         {'kind': 'timer', 'id': 'tm', 'opts': {'interval': 5.0}},
     ], settings=dict(base['settings'], background__cancellation_polling=1.0),
         timeline=[[0, 'start', 'op1'], [1, 'create', 'a', {'spec': {'x': 1}}], [6, 'delete', 'a']]))
+    # D6: a write conflict at the end of a deletion: a foreign status edit lands while the (slow) deletion handler runs, so the finalizer removal fails its
+    # resourceVersion test (422) AFTER the progress was purged by the merge-patch before it; the removal is carried over, the handler must not run again
+    for dur in (0.3, 1.0):
+        for n_del in (1, 2):
+            out.append(dict(base, name=f'D6-conflict-d{dur}-n{n_del}', handlers=[
+                {'kind': 'create', 'id': 'c1'},
+            ] + [{'kind': 'delete', 'id': f'd{k + 1}', 'script': [['slow', dur, ['ok']]]} for k in range(n_del)],
+                timeline=[[0, 'start', 'op1'], [1, 'create', 'a', {'spec': {'x': 1}}], [6, 'delete', 'a'], [round(6 + dur / 2, 3), 'edit', 'a', {'status': {'foreign': 1}}]]))
     return out
 
 
@@ -184,7 +192,15 @@ def random_desc(rng: random.Random, i: int) -> dict[str, Any]:
             extra.append([round(tb + 0.001, 3), 'break', kind])
         desc['timeline'] = sorted(desc['timeline'] + extra, key=lambda x: x[0])
         desc['settings']['watching__reconnect_backoff'] = rng.choice([0.1, 0.5])
-    if nrestarts == 0 and rng.random() < 0.4:
+    if nrestarts == 0 and rng.random() < 0.25:
+        # optimistic-concurrency conflicts: a foreign NON-essential write (status) slipped right before the k-th JSON-patch (finalizer edits; it answers 422
+        # and is carried over to the next pass) or merge-patch of the operator. No crash, no lost response: every handler still succeeds at most once per cycle.
+        rs = random.Random(rng.random())
+        desc['faults'] = [{'client': 'op1', 'match': {'kind': 'patch', 'plural': 'kopfexamples', 'ctype': ctype}, 'nth': rs.randint(1, hi),
+                           'actions': [['slip', {'op': ['edit', rs.choice(names), {'status': {'slipped': k}}]}]]}
+                          for k, (ctype, hi) in enumerate(rs.sample([('application/json-patch+json', 4), ('application/json-patch+json', 4), ('application/merge-patch+json', 10)], rs.randint(1, 3)))]
+        desc['conflicts'] = True
+    elif nrestarts == 0 and rng.random() < 0.4:
         desc['faults'] = [{'client': 'op1', 'match': {'kind': 'patch', 'plural': 'kopfexamples'}, 'nth': rng.randint(1, 12),
                            'actions': [[rng.choice(['kill_before', 'kill_after']), {}]]}]
         desc['restart_after_kill'] = {'delay': rng.choice([0.2, 2.0, 10.0]), 'max': 2}
